@@ -134,7 +134,12 @@ def target_connection_to_sympy(which: str):
             sess.check("post", [], z3.BoolVal(ok and ("ids", False) in asked), 0, label=f"each child asked once, elements with their own identifier, connections/containers with the shared map{tag}")
             empty = type("E", (O.auto_methods(BASE, "Connection", ns),), {"_elements": []})()
             out0 = ns["to_sympy"](empty)
-        sess.check_qeq("post", L.fresh_ctx([]).P, out0, SQ.of(0), 0, label="empty connection -> 0")
+        if hasattr(out0, "re") and hasattr(out0, "den"):
+            sess.check_qeq("post", L.fresh_ctx([]).P, out0, SQ.of(0), 0, label="empty connection -> 0")
+        else:
+            # (a bare Python number is not an expression: Circuit.to_sympy / to_latex call expression methods on the result)
+            ob = sess.check("post", [], z3.BoolVal(False), 0, label="empty connection -> 0")
+            ob.detail = f"an empty connection gives {out0!r} ({type(out0).__name__}) instead of the expression sympify('0')"
     return (f"{module}:{qual}", module, qual, run)
 
 
